@@ -92,7 +92,11 @@ def explore(chk, codes, obj_codes, tag):
     def answer_for(n):
         if n is None:
             return ans_without
-        if cur["n"] != n:
+        if cur["n"] != n and cur["ans"] is not None and n % 2 == 1:
+            # the same answer object, its Result-Code reassigned in place (the family follows the data, not the object)
+            cur["ans"].result_code_avp.data = n.to_bytes(4, "big")
+            cur["n"] = n
+        elif cur["n"] != n:
             a = DiameterAnswer(command_code=257, application_id=0)
             a.append(OriginHostAVP("host.example"))
             a.append(ResultCodeAVP(n.to_bytes(4, "big")))
